@@ -167,11 +167,15 @@ def showRCache : RCache → String
   | .expiresAt t => s!"at{t}"
   | .expiresAtHint t => s!"hint{t}"
 
-def showRMeta (toi : Nat) : Option RMeta → String
+/-- `ftiView`: the object packet reached the receiver before the FDT; its OTI may stem from EXT_FTI, which does not carry
+    every field, so only encoding id and symbol length are shown (the content encoding and everything else are the FDT's
+    either way) -/
+def showRMeta (ftiView : Bool) (toi : Nat) : Option RMeta → String
   | none => s!"M {toi} nooti"
   | some m =>
     joinSp ["M", toString toi, m.location, showOptNat m.contentLength, toString m.transferLength,
-      showOptStr m.contentType, toString m.cenc, showOptStr m.md5, showOti m.oti, showRCache m.cache,
+      showOptStr m.contentType, toString m.cenc, showOptStr m.md5,
+      (if ftiView then s!"{m.oti.enc}:{m.oti.esl}" else showOti m.oti), showRCache m.cache,
       showOptStr m.etag, showList m.groups]
 
 /-- quick-xml 0.39 `normalize_xml11_eols` on the UTF-8 bytes of an element's text: CR LF, CR NEL, CR, NEL (c2 85)
@@ -192,7 +196,7 @@ def textRead (t : String) : String :=
   | none => t
 
 /-- flute's receiver view of an instance: expiry passed to `fdt_received` + metadata of every listed file -/
-def showRecv (i : AbsFdt) (now : Nat) : String :=
+def showRecv (i : AbsFdt) (now : Nat) (ftiView : Bool := false) : String :=
   let fs := sortBy (fun (f : AFile) => f.toi) i.files
   let rec go : List AFile → Option (List String)
     | [] => some []
@@ -207,7 +211,7 @@ def showRecv (i : AbsFdt) (now : Nat) : String :=
       | .error _ => none
       | .ok m => match go r with
         | none => none
-        | some t => some (showRMeta f.toi m :: t)
+        | some t => some (showRMeta ftiView f.toi m :: t)
   match go fs with
   | none => "PANIC"
   | some ms =>
@@ -493,9 +497,14 @@ def step (d : DState) (args : List String) : DState × String :=
     match nat? id with
     | some id => (d, match findPub id d.popped with | some p => showInst p.inst | none => "none")
     | none => (d, "bad-op")
-  | ["rx", id, now] =>
+  | ["rx", id, now, v] =>
+    -- v: a = FDT then bare object packets, b = FDT then packets with the object's in-band signalling,
+    --    c = object packets before the FDT; flute's receiver must hand out the same metadata in all three
     match nat? id, nat? now with
-    | some id, some now => (d, match findPub id d.popped with | some p => showRecv p.inst now | none => "none")
+    | some id, some now =>
+      if v = "a" || v = "b" || v = "c" then
+        (d, match findPub id d.popped with | some p => showRecv p.inst now (v = "c") | none => "none")
+      else (d, "bad-op")
     | _, _ => (d, "bad-op")
   | ["cur", now] =>
     match nat? now with
